@@ -81,7 +81,7 @@ MANIFEST = {
             "the block) while the u16 variable counter cannot overflow; ControlFlowGraph::new and refine_shallow never reach "
             "their assert/unreachable!/unwrap sites for any solver; every symbol has a translation.",
     "note": "Trusted: Lean kernel; the models' panic sites are a transcription of the asserts/unwraps of annotated.rs, basic.rs, "
-            "cfg.rs, sym.rs (inventory in Gen/PanicSites), tied by the differential run (outcome class and initial graph) through "
+            "cfg.rs, sym.rs (inventory: tools/panic_ledger.txt, recomputed by etk-h dump-sites on every run), tied by the differential run (outcome class and initial graph) through "
             "the real pipeline in a child process. Partial by nature: wall-clock time, memory (D21 exponential expression growth) "
             "and stack depth are not modelled; blocks needing >= 65536 inputs overflow the u16 counter (D20, known finding).",
     "technique": "Lean 4 panic-freedom proof over models with explicit panic outcomes + kernel-evaluated table check + differential fuzzing in child processes",
